@@ -181,7 +181,7 @@ class Ctx:
             return True
         except MachineryError as e:
             msg = str(e)
-            m = re.search(r'TRACE-REJECTED at event[", ]+(\d+)[, ]+(.*?)>>', msg, re.S)
+            m = re.search(r'TRACE-REJECTED at event",\s*(\d+),', msg)
             if not m:
                 raise
             line = int(m.group(1))
